@@ -69,7 +69,7 @@ Definition c01_im (c : c01_case) : bool :=
              Bool.eqb (negb (gen_accepts A names)) (is_generr ioff) &&
              verdict_ok (compare_out lazy (model_out A names args) ioff)) tuples.
 
-(* the hypotheses of theorem C01_generated (Props/C01_core.v) on the AST the implementation built:
+(* the hypotheses of theorem C01_generated (Props/C01.v) on the AST the implementation built:
    1 = they hold (gen_check and side_ok): compiled = reference is a theorem for this AST;
    0 = the parser rejected the text; 2 = gen_check rejects (Generate error);
    3 = Generate accepts but side_ok fails (non-first-order constant or own name among the outer names) *)
